@@ -3,7 +3,7 @@ package jmespath
 // C20: equality is a deep, type-strict equivalence and truthiness is uniform.
 
 func c20Spec() {
-	vrtSpec(tq(2, 3), 2, 1, "a,b", smASCII, nfInt|nfDot|nfFrac, 0)
+	vrtSpec(tq(2, 3), 2, 1, "a,b", smASCII, nfInt|nfDot|nfFrac|nfExp, 0)
 	vrtNumRange(-1, 2)
 	vrtNested(tq(1, 2))
 }
@@ -105,4 +105,28 @@ func vrtSameOrScalar(x, y any) bool {
 		return vrtSameObject(x, y)
 	}
 	return true
+}
+
+// H_C20_computed: truthiness and equality do not depend on where a number
+// comes from: a zero (or any number) produced by arithmetic, sum, avg,
+// to_number or unary minus behaves like the literal.
+var c20Computed = []string{"a - a", "a * `0`", "sum(`[]`)", "sum([a, -a])", "to_number('0')", "-(a - a)", "a % a", "avg([a, -a])", "a - b", "abs(a - a)", "`0`", "`0.0`", "`0e0`", "`-0`", "to_number('-0')", "`1e2` - `100`"}
+
+func H_C20_computed() {
+	e := c20Computed[vrtChoose("expr", len(c20Computed))]
+	vrtNote("template:" + e)
+	a := int64(1 + vrtChoose("a", 3))
+	doc := map[string]any{"a": a, "b": a, "rows": []any{map[string]any{"x": a, "y": a, "id": int64(1)}, map[string]any{"x": a, "y": a + 1, "id": int64(2)}}}
+	n, err := Search("!("+e+")", doc)
+	vrtAssert(err == nil && n == any(false), "a number, zero included, is true-like")
+	or, err := Search("("+e+") || 'right'", doc)
+	vrtAssert(err == nil && or != any("right"), "zero || x is zero")
+	and, err := Search("("+e+") && 'right'", doc)
+	vrtAssert(err == nil && and == any("right"), "zero && x is x")
+	eq, err := Search("("+e+") == `0`", doc)
+	vrtAssert(err == nil && eq == any(true), "every spelling and origin of zero equals zero")
+	g, err := Search("rows[?x - y].id", doc)
+	vrtAssert(err == nil && refEqual(g, []any{int64(1), int64(2)}), "a computed zero keeps its row")
+	ex, err := Search("[`100` == `1e2`, `1E2` == `1e2`, `0` == `-0`, `100.0` == `1e2`, `1e2` == `100`, `10e1` != `100`]", nil)
+	vrtAssert(err == nil && refEqual(ex, []any{true, true, true, true, true, false}), "numbers are compared by value in every spelling")
 }
